@@ -14,6 +14,7 @@ EXPLANATION = ("Necessary shape conditions, decided on every path: (R10.1) in ea
                "is neither Clone nor Copy and is never mem::forget-ed; every channel's drop_resources (11) releases exactly once; (R10.3) the vacant FIFO has capacity "
                "MAX_STREAMS and is filled once with 0..MAX_STREAMS; (R10.4) every create_stream* wraps exactly the id it obtained from create_stream_id; (R10.5) a request to end one "
                "stream cancels its id once, before it waits -- never from inside the loop that runs until the id is vacant again (a vacant id may already belong to a new listener). Every channel's running_streams_count forwards to the manager, which answers a load of used_streams_count.")
+EXPLANATION += ' R10.2 also requires keep_streams_running[new id] to be set to true for the id just taken.'
 ASSUMPTIONS = ["the rebuild algorithm inside sync_vacant_and_used_streams (live list = complement of the vacant FIFO) is covered by the unit tests' sequential histories, not re-proved here",
                "'all of them if it keeps polling' is the delivery / wake-up behaviour of C03 / C04"]
 
